@@ -574,6 +574,7 @@ def translate(repo, out_path, jobs=None, tu="#include <etl/chrono.hpp>\n", names
     reg = Registry()
     prelude = PRELUDE % {"repo": repo}
     prelude = prelude.replace("include/etl/_chrono", what).replace("Tetl.C11.Gen", namespace)
+    prelude = prelude.replace("the C11 check", "the %s check" % namespace.split(".")[1])   # owning property: Tetl.<Cxx>.…
     chunks = {}
     errors = {}
     cache = {}
